@@ -88,6 +88,12 @@ def run_shard(spec, acc):
             if d:
                 aliased.append(rnd.choice(d))
         aliases = {m: rnd.choice(ALIAS_STRINGS) + str(j) for j, m in enumerate(dict.fromkeys(aliased))}
+        if len(aliases) >= 2 and rnd.random() < 0.12:
+            # an alias that repeats the module's own name: still the most specific alias for everything below it
+            nested_ones = [m for m in aliases if any(is_ancestor(a, m) for a in aliases)]
+            k = rnd.choice(nested_ones or sorted(aliases))
+            aliases[k] = k
+            acc.count("identity_aliases")
         if aliases and rnd.random() < 0.1:
             aliases[rnd.choice(sorted(aliases))] = ""  # an empty alias is an alias: the name part is replaced by nothing
             acc.count("empty_string_aliases")
@@ -173,7 +179,7 @@ def floors(acc, tier):
     why = []
     if acc.counters["draw_backend_calls"] == 0:
         why.append("the drawing backend was never intercepted")
-    for c, n in (("c17_judged", 1000), ("c17_unknown_alias_cases", 20), ("c17_spacing_cases", 100), ("c17_prefix_sibling_alias_cases", 50), ("c17_passthrough_kwargs", 100), ("repeated_calls_same_architecture", 50), ("variant_architectures", 50), ("reused_alias_dict_sequences", 50), ("empty_string_aliases", 30), ("c17_calls_with_reused_alias_object", 100)):
+    for c, n in (("c17_judged", 1000), ("c17_unknown_alias_cases", 20), ("c17_spacing_cases", 100), ("c17_prefix_sibling_alias_cases", 50), ("c17_passthrough_kwargs", 100), ("repeated_calls_same_architecture", 50), ("variant_architectures", 50), ("reused_alias_dict_sequences", 50), ("empty_string_aliases", 30), ("identity_aliases", 30), ("c17_calls_with_reused_alias_object", 100)):
         if acc.counters[c] < n:
             why.append(f"{c}: only {acc.counters[c]}")
     acc.flags["exhaustive"] = bool(acc.flags.get("exhaustive_alias_subsets"))
